@@ -136,7 +136,11 @@ def write_file(platedir, fc, run1d, off=0, mjd=None, spplate=True):
                 h = _table(fc['plugmap'], off)
                 h.name = 'PLUGMAP'
             else:
-                a = _decoy(np.array(fc['images'][name]), off).astype('i4' if 'mask' in name else 'f4')
+                a = _decoy(np.array(fc['images'][name]), off)
+                if 'mask' in name:          # masks: int32, stored as unsigned 32-bit (BZERO convention) on wide files
+                    a = a.astype('u4' if meta['wide'] else 'i4')
+                else:                       # real images: float32 where it holds the file's values exactly, else float64
+                    a = a.astype('f4') if np.array_equal(a.astype('f4').astype('f8'), a.astype('f8')) else a.astype('f8')
                 h = fits.PrimaryHDU(a) if k == 0 else fits.ImageHDU(a, name=name.upper())
                 if k == 0:
                     h.header['COEFF0'] = (meta['c0'] + (7 if off else 0)) / 1024.0
@@ -239,11 +243,19 @@ def loc_kwargs(tree, call):
 
 
 MEMS = ['plain', 'readonly', 'strided', 'swapped']
+INT_TYPES = ['i1', 'u1', 'i2', 'u2', 'i4', 'u4', 'i8', 'u8']
+
+
+def fitting(vals, types=INT_TYPES):
+    """the integer types that hold every value"""
+    lo, hi = min(vals), max(vals)
+    return [t for t in types if np.iinfo(t).min <= lo and hi <= np.iinfo(t).max]
 
 
 def concretise(call, seed):
-    """Choose the Python containers for the three arguments and the memory layout of the array ones (deterministic in
-    the call and the seed).  Spec: the outcome depends on the values only (MemIndependent)."""
+    """Choose the Python form of the three arguments - container, numeric type (every signed / unsigned integer width
+    that holds the values, Python ints, numpy scalars, 0-d arrays) and memory layout of the array ones -
+    deterministically in the call and the seed.  Spec: the outcome depends on the values only (MemIndependent)."""
     rng = random.Random(zlib.crc32(('%d|%s' % (seed, json.dumps(call, sort_keys=True))).encode()))
     conv = call['conv']
     allfib = len(call['f']) == 0
@@ -251,11 +263,15 @@ def concretise(call, seed):
     for a in 'pmf':
         if len(call[a]) == 0:
             out[a] = 'omit'
-        elif conv[a] == 's':
-            out[a] = rng.choice(['int', 'npint', 'zerod'] if (allfib and a == 'p')
-                                else ['int', 'int', 'npint', 'zerod', 'list', 'i4'])
+            continue
+        types = fitting(call[a])
+        if len(call[a]) == 1:
+            types = [t for t in types if t != 'u8']      # see ctx.assumptions: a single uint64 value raises (loudly)
+        if conv[a] == 's':
+            form = rng.choice(['int', 'sc', 'zd'] if (allfib and a == 'p') else ['int', 'sc', 'sc', 'zd', 'zd', 'list', 'ar'])
         else:
-            out[a] = rng.choice(['i4', 'i8'] if (allfib and a == 'p') else ['list', 'tuple', 'i4', 'i4', 'i8', 'i8'])
+            form = rng.choice(['ar'] if (allfib and a == 'p') else ['list', 'tuple', 'ar', 'ar', 'ar', 'ar'])
+        out[a] = form if form in ('int', 'list', 'tuple') else form + ':' + rng.choice(types)
     out['mem'] = {a: rng.choice(MEMS) for a in 'pmf'}
     return out
 
@@ -267,11 +283,11 @@ def layout(a, mem):
         a.setflags(write=False)
     elif mem == 'strided':
         if a.ndim == 1:
-            big = np.full(2 * a.size + 1, -99, dtype=a.dtype)
+            big = np.full(2 * a.size + 1, 99, dtype=a.dtype)
             big[::2][:a.size] = a
             a = big[::2][:a.size]
         else:
-            big = np.full((2 * a.shape[0], 2 * a.shape[1]), -99, dtype=a.dtype)
+            big = np.full((2 * a.shape[0], 2 * a.shape[1]), 99, dtype=a.dtype)
             big[::2, ::2] = a
             a = big[::2, ::2]
     elif mem == 'fortran':
@@ -285,15 +301,22 @@ def _container(kind, vals, mem='plain'):
     vals = [int(v) for v in vals]
     if kind == 'int':
         return vals[0]
-    if kind == 'npint':
-        return np.int32(vals[0])
-    if kind == 'zerod':
-        return layout(np.array(vals[0], dtype='i4'), mem if mem in ('readonly', 'swapped') else 'plain')
     if kind == 'list':
         return list(vals)
     if kind == 'tuple':
         return tuple(vals)
-    return layout(np.array(vals, dtype=kind), mem)
+    form, _, dt = kind.partition(':')
+    if form == 'npint':                     # names used by older replay files
+        form, dt = 'sc', 'i4'
+    elif form == 'zerod':
+        form, dt = 'zd', 'i4'
+    elif not dt:
+        form, dt = 'ar', form
+    if form == 'sc':
+        return np.dtype(dt).type(vals[0])
+    if form == 'zd':
+        return layout(np.array(vals[0], dtype=dt), mem if mem in ('readonly', 'swapped') else 'plain')
+    return layout(np.array(vals, dtype=dt), mem)
 
 
 def ints(a, scale=1):
@@ -386,6 +409,14 @@ def classify(call, tree, obs_err):
     return None
 
 
+def classify_append(s1, s2, dtype):
+    """D-C16-5 (spec: Dev_AppendKeepsFirstType): the result is allocated with the first block's type, so values of the
+    second block that this type cannot hold are wrapped / rounded."""
+    if dtype[0] != dtype[1] and not holds(s2, dtype[0]):
+        return 'D-C16-5'
+    return None
+
+
 def _decode(v):
     return 'file %d fibre %d hdu %d x %d' % (v // 1000000, v // 1000 % 1000, v // 100 % 10, v % 100) if v > 0 else str(v)
 
@@ -419,12 +450,35 @@ def compare(exp, obs):
 APP_MEMS = ['plain', 'readonly', 'strided', 'fortran', 'swapped']
 
 
-def run_append(s1, s2, shift, dtype, omit_kw=False, mem=('plain', 'plain')):
+NUM_TYPES = INT_TYPES + ['f4', 'f8']
+
+
+def holds(vals, t):
+    a = np.array(vals)
+    if t[0] == 'f':
+        return np.array_equal(a.astype(t).astype('f8'), a.astype('f8'))
+    return np.iinfo(t).min <= a.min() and a.max() <= np.iinfo(t).max
+
+
+def append_forms(rng, s1, s2, shift):
+    """numeric type of each block (any that holds its values) and the form of pixshift"""
+    t1 = rng.choice([t for t in NUM_TYPES if holds(s1, t)])
+    t2 = rng.choice([t for t in NUM_TYPES if holds(s2, t)])
+    ps = rng.choice(['int', 'omit' if shift == 0 else 'int', 'sc:i8', 'sc:i2', 'sc:i1', 'zd:i4'] +
+                    (['sc:u1', 'sc:u2', 'sc:u8', 'zd:u4'] if shift >= 0 else []))
+    return [t1, t2], ps
+
+
+def run_append(s1, s2, shift, dtype, ps='int', mem=('plain', 'plain')):
     from pydl.pydlspec2d.spec1d import spec_append
-    a, b = layout(np.array(s1, dtype=dtype), mem[0]), layout(np.array(s2, dtype=dtype), mem[1])
+    if isinstance(dtype, str):
+        dtype = [dtype, dtype]
+    if ps is True or ps is False:            # older replay files: omit_kw flag
+        ps = 'omit' if (ps and shift == 0) else 'int'
+    a, b = layout(np.array(s1, dtype=dtype[0]), mem[0]), layout(np.array(s2, dtype=dtype[1]), mem[1])
     keep = (a.copy(), b.copy())
     try:
-        r = spec_append(a, b) if (omit_kw and shift == 0) else spec_append(a, b, pixshift=shift)
+        r = spec_append(a, b) if ps == 'omit' else spec_append(a, b, pixshift=_container(ps, [shift]))
     except Exception as ex:
         return {'err': '%s: %s' % (type(ex).__name__, str(ex)[:160]), 'ret': []}
     v = ints(r)
@@ -444,17 +498,18 @@ def _mc_case(item):
     if st['pc'] == 'appended':
         bad = []
         rng = random.Random(zlib.crc32(('%d|%s' % (_W['seed'], json.dumps(call, sort_keys=True))).encode()))
-        for dtype, omit in (('f4', False), ('f8', True), ('i4', False), ('i2', True)):
+        for _ in range(3):
             mem = (rng.choice(APP_MEMS), rng.choice(APP_MEMS))
-            obs = run_append(call['s1'], call['s2'], call['shift'], dtype, omit, mem)
+            dtype, ps = append_forms(rng, call['s1'], call['s2'], call['shift'])
+            obs = run_append(call['s1'], call['s2'], call['shift'], dtype, ps, mem)
             if obs['err'] or obs['ret'] != exp:
-                bad.append((dtype + ' layouts %s/%s' % mem, obs, mem))
-        out = {'k': k, 'kind': 'append-mc', 'ok': not bad, 'ncalls': 4, 'call': call,
+                bad.append(('%s+%s pixshift as %s layouts %s/%s' % (dtype[0], dtype[1], ps, mem[0], mem[1]), obs, mem, dtype, ps))
+        out = {'k': k, 'kind': 'append-mc', 'ok': not bad, 'ncalls': 3, 'call': call,
                'nontriv': (len(call['s1'][0]) != len(call['s2'][0]) or call['shift'] != 0)}
         if bad:
             out.update(what='spec_append(%s, %s, pixshift=%d) dtype %s: expected %s observed %s' % (
                 call['s1'], call['s2'], call['shift'], bad[0][0], exp, bad[0][1]), expected=exp, observed=bad[0][1],
-                dtype=bad[0][0].split()[0], mem=list(bad[0][2]), finding=None)
+                dtype=bad[0][3], ps=bad[0][4], mem=list(bad[0][2]), finding=classify_append(call['s1'], call['s2'], bad[0][3]))
         return out
     tree = _W['tree4']
     conc = concretise(call, _W['seed'])
@@ -482,7 +537,7 @@ def _recorded_case(item):
     def hook(s1, s2, shift, r):
         seen[0] += 1
         if (seen[0] - 1) % 7 == target and len(inner) < 2 and np.asarray(r).size <= 400:
-            scale = 1024 if np.asarray(s1).dtype == np.dtype('f8') else 1     # loglam blocks are float64
+            scale = 1024 if (seen[0] - 1) % 7 == 6 else 1     # the seventh append per file is loglam (units 2^-10)
             v = [ints(s1, scale), ints(s2, scale), ints(r, scale)]
             if None not in v and np.asarray(s1).ndim == 2 and np.asarray(s2).ndim == 2 and np.asarray(r).ndim == 2:
                 inner.append({'kind': 'append', 's1': v[0], 's2': v[1], 'shift': int(shift), 'obs': {'err': '', 'ret': v[2]}})
@@ -572,13 +627,17 @@ def gen_append(rng):
     r1, r2 = rng.randint(1, 4), rng.randint(1, 4)
     p1, p2 = rng.randint(1, 6), rng.randint(1, 6)
     shift = rng.choice([0, 0, 0] + list(range(-8, 9)))
+    pools = [[0, 0, 1, 2, 3, 5, 100, 255], [0, 1, -1, -7, 100, 127, -128], [0, 3, 300, 32000, -32768, 65535],
+             [0, 2, 70000, -70000, 2**31 - 2], [0, 16777217, 16777219, 5, -16777217]]
+
     def block(r, p):
-        return [[rng.choice([0, 0, 1, 2, 3, 5, -1, -7, 100, 32000]) for _ in range(p)] for _ in range(r)]
-    dtype = rng.choice(['f4', 'f8', 'i4', 'i2', 'i8'])
+        pool = rng.choice(pools)
+        return [[rng.choice(pool) for _ in range(p)] for _ in range(r)]
     s1, s2 = block(r1, p1), block(r2, p2)
     mem = (rng.choice(APP_MEMS), rng.choice(APP_MEMS))
+    dtype, ps = append_forms(rng, s1, s2, shift)
     return {'kind': 'append', 's1': s1, 's2': s2, 'shift': shift,
-            'obs': run_append(s1, s2, shift, dtype, rng.random() < 0.5, mem), 'dtype': dtype, 'mem': list(mem)}
+            'obs': run_append(s1, s2, shift, dtype, ps, mem), 'dtype': dtype, 'ps': ps, 'mem': list(mem)}
 
 
 # --------------------------------------------------------------------------- the check
@@ -608,6 +667,14 @@ def run(ctx):
         'int16/int32, float32/float64 as the file\'s values need); returned table values are compared after promotion, as values',
         'array arguments are handed over plain / read-only / strided (Fortran-ordered for 2-d) / byte-swapped and scalars also as 0-d arrays, '
         'rotated by seed; the specified outcome depends on the values only (MemIndependent)',
+        'numeric type is a dimension of every case: plate / MJD / fibre go in as Python ints, numpy scalars, 0-d and n-d arrays of '
+        'every signed / unsigned width that holds the values (rotated by seed); spec_append blocks get independent types '
+        '(int8..uint64, float32/64: any that holds the block\'s values), pixshift goes in as Python int, signed / unsigned numpy '
+        'scalar or 0-d array; image HDUs are float32 or float64 / int32 or unsigned-32 (BZERO) per file as the values need; '
+        'results are compared as VALUES after promotion (result dtype itself is not asserted)',
+        'NOT exercised: a single uint64 value for plate or fibre (scalar, 0-d or length-1): int32 + uint64 promotes to float64 and '
+        'readspec raises IndexError / ValueError - a loud failure, reported, not a silent wrong value; integer BITPIX images '
+        'with BSCALE/BZERO scaling other than the unsigned convention (astropy hands readspec float32 physical values)',
         'request vectors are exhaustive up to length 3 (quick) / 4 (thorough) over 4 files x 3 fibres; longer vectors '
         'of 17..40 elements with repeats come from the scrambled "long" family of MC_ReadSpec (both tiers) and from the recorded direction (<= 40, 9 files, all fibres)',
     ]
@@ -656,7 +723,7 @@ def mc_direction(ctx, r):
         if not out['ok']:
             nviol += 1
             case = {'what': out['what'], 'kind': out['kind'], 'call': out['call'], 'concrete': out.get('concrete'),
-                    'dtype': out.get('dtype'), 'mem': out.get('mem'), 'expected': out['expected'], 'observed': out['observed']}
+                    'dtype': out.get('dtype'), 'ps': out.get('ps'), 'mem': out.get('mem'), 'expected': out['expected'], 'observed': out['observed']}
             ctx.violation(case, finding=out.get('finding'))
     del items
 
@@ -680,7 +747,7 @@ def recorded_direction(ctx):
             origin.append({'kind': 'recorded-inner-append', 'from_call': calls[k]})
     for _ in range(250 if ctx.quick else 3000):
         a = gen_append(rng)
-        origin.append({'kind': 'recorded-append', 'dtype': a.pop('dtype'), 'mem': a.pop('mem')})
+        origin.append({'kind': 'recorded-append', 'dtype': a.pop('dtype'), 'ps': a.pop('ps'), 'mem': a.pop('mem')})
         recs.append(a)
     bad = validate_parallel(ctx, recs)
     ctx.evaluated(len(recs), 'recorded')
@@ -690,7 +757,8 @@ def recorded_direction(ctx):
         if why.startswith('harness'):
             raise core.MachineryError('Trace_ReadSpec: %s for record %s' % (why, json.dumps(recs[k])[:400]))
         o, rec = origin[k], recs[k]
-        finding = classify(o['call'], tree6, rec['obs']['err']) if o['kind'] == 'recorded' else None
+        finding = classify(o['call'], tree6, rec['obs']['err']) if o['kind'] == 'recorded' else (
+            classify_append(rec['s1'], rec['s2'], o['dtype']) if o['kind'] == 'recorded-append' else None)
         brief = ('readspec(p=%s, m=%s, f=%s, loc=%s; %s)' % (o['call']['p'][:6], o['call']['m'][:6], o['call']['f'][:6],
                                                               o['call']['loc'], o['concrete'])
                  if o['kind'] == 'recorded' else 'spec_append(%s, %s, pixshift=%s)' % (rec['s1'], rec['s2'], rec['shift']))
@@ -698,6 +766,73 @@ def recorded_direction(ctx):
                        'kind': o['kind'], 'origin': o, 'record': rec if len(json.dumps(rec)) < 60000 else 'omitted', 'why': why},
                       finding=finding)
     ctx.sample({'recorded_call': origin[0], 'verdict': bad.get(0, 'accepted')})
+    selftest(ctx, [recs[k] for k in range(len(recs)) if k not in bad], rng)
+
+
+def selftest(ctx, accepted, rng):
+    """Binding self-test: accepted records with ONE observed field falsified must all be rejected by Trace_ReadSpec."""
+    import copy
+    reads = [r for r in accepted if r['kind'] == 'readspec' and 2 <= len(r['obs']['ret']['flux']) <= 24]
+    apps = [r for r in accepted if r['kind'] == 'append']
+    fals, kinds = [], {}
+    for k, r in enumerate(rng.sample(reads, min(len(reads), 60)) + rng.sample(apps, min(len(apps), 90))):
+        r2 = copy.deepcopy(r)
+        d = r2['obs']['ret']
+        if r['kind'] == 'append':
+            m = ['cell', 'swaprows', 'shape'][k % 3]
+            if m == 'cell':
+                i, q = rng.randrange(len(d)), rng.randrange(len(d[0]))
+                d[i][q] += 1
+            elif m == 'swaprows':
+                if d[0] == d[-1]:
+                    d[0][0] += 1
+                else:
+                    d[0], d[-1] = d[-1], d[0]
+            else:
+                for row in d:
+                    row.append(0)
+        else:
+            n, w = len(d['flux']), len(d['flux'][0])
+            m = ['image-cell', 'pad-cell', 'swap-image-rows', 'swap-table-rows', 'table-number', 'table-string',
+                 'loglam', 'drop-row'][k % 8]
+            img = rng.choice(IMAGES)
+            i = rng.randrange(n)
+            own = [q for q in range(w) if d['flux'][i][q] != 0]
+            pad = [(a, q) for a in range(n) for q in range(w) if d['flux'][a][q] == 0]
+            if m == 'pad-cell' and not pad:
+                m = 'image-cell'
+            if m == 'image-cell':                  # one pixel of one image is the neighbouring pixel's value (a shift)
+                q = rng.choice(own)
+                d[img][i][q] = d[img][i][q - 1] if q > 0 else d[img][i][q] + 1
+            elif m == 'pad-cell':
+                a, q = rng.choice(pad)
+                d[img][a][q] = 7
+            elif m in ('swap-image-rows', 'swap-table-rows'):
+                a, b = 0, n - 1
+                tgt = d[img]
+                if m == 'swap-table-rows':
+                    t = rng.choice(['plugmap', 'zans'])
+                    c = rng.choice(sorted(d[t]))
+                    tgt = d[t][c]
+                if tgt[a] == tgt[b]:
+                    m = 'table-number'
+                else:
+                    tgt[a], tgt[b] = tgt[b], tgt[a]
+            if m == 'table-number':
+                t = rng.choice(['plugmap', 'zans'])
+                c = rng.choice([c for c in sorted(d[t]) if isinstance(d[t][c][i], int)])
+                d[t][c][i] += 1
+            elif m == 'table-string':
+                t, c = rng.choice([('plugmap', 'OBJTYPE'), ('zans', 'CLASS'), ('zans', 'SUBCLASS')])
+                d[t][c][i] = d[t][c][i][:-1]
+            elif m == 'loglam':
+                d['loglam'][i][own[0]] += 1
+            elif m == 'drop-row':
+                d[img].pop()
+        kinds[r['kind'] + ':' + m] = kinds.get(r['kind'] + ':' + m, 0) + 1
+        fals.append(r2)
+    core.binding_selftest(ctx, 'Trace_ReadSpec', fals, 'recorded_calls')
+    ctx.cov['parts']['selftest_recorded_calls']['falsifications'] = kinds
 
 
 def replay(ctx, case):
@@ -709,7 +844,7 @@ def replay(ctx, case):
     kind = case.get('kind')
     if kind == 'append-mc':
         c = case['call']
-        obs = run_append(c['s1'], c['s2'], c['shift'], case.get('dtype') or 'f4', False, tuple(case.get('mem') or ('plain', 'plain')))
+        obs = run_append(c['s1'], c['s2'], c['shift'], case.get('dtype') or 'f4', case.get('ps') or 'int', tuple(case.get('mem') or ('plain', 'plain')))
         print('replayed spec_append', c, '\nobserved:', obs, '\nexpected:', case['expected'])
         ctx.evaluated(1)
         if obs['err'] or obs['ret'] != case['expected']:
@@ -742,7 +877,7 @@ def replay(ctx, case):
         else:
             rec = case['record']
             if kind == 'recorded-append':
-                rec = dict(rec, obs=run_append(rec['s1'], rec['s2'], rec['shift'], case['origin'].get('dtype', 'f4'), False,
+                rec = dict(rec, obs=run_append(rec['s1'], rec['s2'], rec['shift'], case['origin'].get('dtype', 'f4'), case['origin'].get('ps', 'int'),
                                            tuple(case['origin'].get('mem') or ('plain', 'plain'))))
         bad = core.validate_records(ctx, 'Trace_ReadSpec', [rec])
         ctx.evaluated(1)
